@@ -23,6 +23,7 @@ import (
 	"errors"
 	"fmt"
 	"os"
+	"path/filepath"
 	"regexp"
 	"slices"
 	"strconv"
@@ -497,6 +498,11 @@ func writeAliasFile(indexName *string, allnames map[string]bool, orgid int64) er
 		return err
 	}
 
+	if err := os.MkdirAll(filepath.Dir(filename), 0764); err != nil {
+		log.Errorf("writeAliasFile: Failed to create directory for file=%v, err=%v", filename, err)
+		return err
+	}
+
 	err = os.WriteFile(filename, jdata, 0644)
 	if err != nil {
 		log.Errorf("writeAliasFile: Failed write to the file=%v, err=%v", filename, err)
@@ -514,6 +520,18 @@ func initializeAliasToIndexMap() error {
 	}
 
 	for _, dir := range dirs {
+		if !dir.IsDir() && strings.HasSuffix(dir.Name(), ".json") {
+			indexName := strings.TrimSuffix(dir.Name(), ".json")
+			aliasNames, err := GetAliases(indexName, 0)
+			if err != nil {
+				log.Errorf("initializeAliasToIndexMap: For indexName=%v, Failed to read aliases, err=%v", indexName, err)
+				return err
+			}
+			for aliasName := range aliasNames {
+				putAliasToIndexInMem(aliasName, indexName, 0)
+			}
+			continue
+		}
 		if dir.IsDir() {
 			orgid := dir.Name()
 			orgIdNumber, _ := strconv.ParseInt(orgid, 10, 64)
@@ -569,10 +587,20 @@ func putAliasToIndexInMem(aliasName string, indexName string, orgid int64) {
 func FlushAliasMapToFile() error {
 	log.Warnf("FlushAliasMapToFile: Flushing alias map to file on exit")
 	for orgid := range aliasToIndexNames {
+		indexToAliases := make(map[string]map[string]bool)
 		for alias, indexNames := range aliasToIndexNames[orgid] {
-			err := writeAliasFile(&alias, indexNames, orgid)
+			for indexName := range indexNames {
+				if _, ok := indexToAliases[indexName]; !ok {
+					indexToAliases[indexName] = make(map[string]bool)
+				}
+				indexToAliases[indexName][alias] = true
+			}
+		}
+		for indexName, aliases := range indexToAliases {
+			indexName := indexName
+			err := writeAliasFile(&indexName, aliases, orgid)
 			if err != nil {
-				log.Errorf("FlushAliasMapToFile: Failed to save alias map! alias=%v, Error= %+v", alias, err)
+				log.Errorf("FlushAliasMapToFile: Failed to save alias map! index=%v, Error= %+v", indexName, err)
 			}
 		}
 	}
